@@ -229,6 +229,29 @@ pub fn check(c: &Case, obs: &mut Obs) -> Result<(), Fail> {
             close(p, bg_rgba, bg_tol)
         }
     };
+    // With an embedded image the frame and the image hide what they cover - and nothing else. Where they are is taken
+    // from the SVG of the same configuration (C18 checks that geometry); a cell is then skipped by the every-pixel rule
+    // when it touches frame or image at all, and by the centre rule when its centre is within a quarter module of them.
+    let hidden: Option<super::c18::Frame> = match &c.cfg.image {
+        Some(_) => {
+            let svg = catch(|| {
+                let mut plain = c.cfg.clone();
+                plain.warm = None;
+                plain.pred = 0;
+                plain.svg_string(&built.qr)
+            })
+            .map_err(|p| Fail { sig: panic_sig(&p), msg: format!("SvgBuilder panicked: {}", p) })?;
+            obs.label("with_embedded_image");
+            Some(super::c18::frame_of(&svg)?)
+        }
+        None => None,
+    };
+    let covered = |r: usize, cc: usize, whole_cell: bool| -> bool {
+        let Some(f) = &hidden else { return false };
+        let (x0, y0, x1, y1) = if whole_cell { (cc as f64, r as f64, cc as f64 + 1.0, r as f64 + 1.0) } else { (cc as f64 + 0.25, r as f64 + 0.25, cc as f64 + 0.75, r as f64 + 0.75) };
+        let hit = |rx: f64, ry: f64, rw: f64, rh: f64| x0 < rx + rw.max(0.0) + 1e-9 && x1 > rx.min(rx + rw) - 1e-9 && y0 < ry + rh.max(0.0) + 1e-9 && y1 > ry.min(ry + rh) - 1e-9;
+        hit(f.x, f.y, f.w, f.h) || hit(f.ix, f.iy, f.iw, f.ih)
+    };
     let integer_scale = (side % s == 0) && side >= s;
     let ki = side / s;
     let mode;
@@ -238,6 +261,9 @@ pub fn check(c: &Case, obs: &mut Obs) -> Result<(), Fail> {
         mode = "every_pixel";
         for r in 0..s {
             for cc in 0..s {
+                if covered(r, cc, true) {
+                    continue;
+                }
                 let inside = r >= margin && cc >= margin && r < margin + n && cc < margin + n;
                 let dark = inside && vals[(r - margin) * n + (cc - margin)];
                 for dy in 0..ki {
@@ -263,6 +289,9 @@ pub fn check(c: &Case, obs: &mut Obs) -> Result<(), Fail> {
         mode = "centre_sampling";
         for r in 0..s {
             for cc in 0..s {
+                if covered(r, cc, false) {
+                    continue;
+                }
                 let inside = r >= margin && cc >= margin && r < margin + n && cc < margin + n;
                 let dark = inside && vals[(r - margin) * n + (cc - margin)];
                 let x = ((cc as f64 + 0.5) * k).floor() as usize;
@@ -372,8 +401,10 @@ pub fn case_strategy(versions: &'static [usize]) -> BoxedStrategy<Case> {
         // layers UNDER the one whose colour must show: 0..=2, opaque, colours from a small palette (so that a colour
         // can re-appear: A, B, A) or the module colour
         prop_oneof![3 => Just(Vec::new()), 2 => proptest::collection::vec((0usize..6, 0usize..4), 1..=2)],
+        // an embedded image (a real PNG as data URI) in a square frame, default placement or fractional size / gap / position
+        prop_oneof![4 => Just(None), 1 => (prop_oneof![1 => Just(None), 2 => (2u32..24).prop_map(|x| Some(x as f64 / 4.0 + 1.0))], prop_oneof![1 => Just(None), 2 => (0u32..16).prop_map(|x| Some(x as f64 / 5.0))], prop_oneof![2 => Just(None), 1 => (8u32..60, 8u32..60).prop_map(|(x, y)| Some((x as f64 / 4.0, y as f64 / 4.0)))]).prop_map(Some)],
     )
-        .prop_flat_map(|(v, li, margin, shape, (mc, bg), mask, warm, layer_explicit, pred, under)| {
+        .prop_flat_map(|(v, li, margin, shape, (mc, bg), mask, warm, layer_explicit, pred, under, img)| {
             let cell = Cell { version: v, level: Level::from_index(li), mode: Mode::Byte };
             let s = size(v) + 2 * margin.unwrap_or(4);
             let pre = prop_oneof![3 => Just(Vec::new()), 2 => proptest::collection::vec((fit_strategy(s), any::<bool>()), 1..3)];
@@ -392,7 +423,16 @@ pub fn case_strategy(versions: &'static [usize]) -> BoxedStrategy<Case> {
                         }
                     }
                     layers.extend(top);
-                    SvgCfg { margin, layers, module_color: if layer_explicit && shape.is_some() { None } else { mc.clone() }, background: bg.clone(), warm, pred, ..SvgCfg::default() }
+                    let mut cfg = SvgCfg { margin, layers, module_color: if layer_explicit && shape.is_some() { None } else { mc.clone() }, background: bg.clone(), warm, pred, ..SvgCfg::default() };
+                    if let Some((sz, gap, pos)) = img {
+                        cfg.image = Some(super::c18::solid_png_uri([0, 170, 60]));
+                        cfg.image_bg_shape = Some(0);
+                        cfg.image_bg_color = Some(ColorSpec::Rgb([250, 240, 20]));
+                        cfg.image_size = sz;
+                        cfg.image_gap = gap;
+                        cfg.image_position = pos;
+                    }
+                    cfg
                 },
                 fit,
             })
@@ -415,7 +455,7 @@ pub fn run(e: &'static Engine) {
          decodes to_bytes() to the same width/height/RGBA as the pixmap (un-premultiplied; +-2/255 only for partially transparent \
          backgrounds). Non-trivial: non-default shape or fit or margin or non-opaque background; distinct by case hash.",
     );
-    e.extend_rule("part wide_margins (module coordinates on 10^k / 2^k boundaries up to 1100); fits below the symbol size (size and PNG round trip only); 0..2 opaque layers under the top layer from a three-colour palette (the top layer's colour must show; every-pixel rule only when all layers are plain squares); renderer warm-up (perturbing every last-value-wins option, possibly before the last layer exists) and thread predecessors (multi-layer render, failing render).");
+    e.extend_rule("part wide_margins (module coordinates on 10^k / 2^k boundaries up to 1100); fits below the symbol size (size and PNG round trip only); 0..2 opaque layers under the top layer from a three-colour palette (the top layer's colour must show; every-pixel rule only when all layers are plain squares); renderer warm-up (perturbing every last-value-wins option, possibly before the last layer exists) and thread predecessors (multi-layer render, failing render); cases with an embedded image in a square frame (default or fractional size / gap / position): cells touching frame or image are exempt from the every-pixel rule, cells whose centre is within a quarter module of them from the centre rule.");
     e.assume("resvg/usvg/tiny-skia are part of the pipeline under test; png crate decoder is trusted");
     e.assume("non-square shapes are asserted only at >= 4 px per module, as the property states; fit_*(0) is outside the domain");
     crate::engine::run_regress(e, &|c, o| replay(e, c, o));
